@@ -221,7 +221,11 @@ pub fn matching(s: &Schema, rng: &mut Rng) -> Node {
             9 => Node::Seq { a: 0, t: "!T".into(), items: vec![matching(&s.ss[1], rng), matching(&s.ss[2], rng)] },
             // (tagged scalars whose text is null-like are left out: Option targets and the null-document rule look at the text
             // only, so `!U ~` is a null there - see DESIGN 0.6)
-            10 => match rng.below(4) {
+            10 => match rng.below(7) {
+                // tags on mapping nodes (the crate ignores them: recorded finding)
+                4 => Node::Map { a: 0, t: "!St".into(), entries: vec![(sc("a"), matching(&s.ss[3], rng))] },
+                5 => Node::Map { a: 0, t: "!X".into(), entries: vec![(sc("Nw"), matching(&s.ss[0], rng))] },
+                6 => Node::Map { a: 0, t: "!U".into(), entries: vec![(sc("Nw"), matching(&s.ss[0], rng))] },
                 0 => Node::Scalar { a: 0, v: "x".into(), q: "p".into(), t: "!U".into() },
                 1 => Node::Scalar { a: 0, v: "1".into(), q: "p".into(), t: "!X".into() },
                 2 => Node::Scalar { a: 0, v: "5".into(), q: "p".into(), t: "!T".into() },
